@@ -61,3 +61,16 @@ Definition kernels_tied : Prop :=
                    = agg_merge a w c n).
 Lemma kernels_tied_holds : kernels_tied.
 Proof. split; intros [] w c n; kernel. Qed.
+
+(* ---- C02: the steps of a flush / of the offset file / of submitting a point, as written in row_store.go and insert.go,
+   are the ones the crash model assumes: temp write, sync, close, rename (the commit point), then the in-memory swap;
+   one row-store submission per point (atomic = true in Model/Crash.v) ---- *)
+Definition modelled_flush_steps : list string := ["write"; "sync"; "close"; "rename"; "swap_file"; "swap_mem"]%string.
+Definition modelled_offsets_steps : list string := ["write"; "sync"; "close"; "rename"]%string.
+Definition modelled_point_submissions : list string := ["once"]%string.
+Lemma flush_steps_tied : gen_flush_steps = modelled_flush_steps.
+Proof. reflexivity. Qed.
+Lemma offsets_steps_tied : gen_offsets_steps = modelled_offsets_steps.
+Proof. reflexivity. Qed.
+Lemma point_submitted_once : gen_point_submissions = modelled_point_submissions.
+Proof. reflexivity. Qed.
